@@ -8,8 +8,11 @@ import GqlProofs.Parser.SoundSchemaTop
 
   Specification-side theorems about the grammar tables `gql` (start symbol
   `NT.typeSystemDocument`), the generic recogniser (driver ops `gs` / `gsc`) and the unparser
-  `Print.printSchema` (op `unparses`); plus two theorems about the PARSER MODEL
-  (`parseSchemaSrc`, `parseSchemas`: ops `ps` / `pss`): the built-in flag and the merge.
+  `Print.printSchema` (op `unparses`); plus theorems about the PARSER MODEL
+  (`parseSchemaSrc`, `parseSchemas`: ops `ps` / `pss`): the built-in flag, the merge, and
+  soundness — every accepted non-empty document without literal-named enum values is derivable
+  and its tree unparses to a canonical form of the input (`C06_parse_sound`, `C06_parse_sound_<nt>`;
+  as for C05 the canonical form is that of a derivation, see the FULL STATEMENT note in C05.lean).
   The tie to the real parser is the check `C06` (harness/internal/props/grammarcheck.go).
 -/
 open Gql Gql.Lexer Gql.Grammar Gql.Parser Gql.Print
